@@ -10,8 +10,8 @@ transcript and the same checks as the native verifier. Proved here:
 
 * `batch_scripts_equal_partial`  under `WFBatch` (every instance with preprocessed columns also opens
   the preprocessed next row);
-* `uni_scripts_equal_partial`    under `WFUni` (no hiding PCS; the AIR opens the next row of the
-  trace and, if it has preprocessed columns, of those);
+* `uni_scripts_equal_partial`    under `WFUni` (if the AIR has preprocessed columns it opens their next
+  row); hiding PCS included since /repo b026681, AIRs that open no next trace row since fixes/C01-1;
 * `every_element_checked`, `every_element_bound` — no proof element is ignored;
 * `verdict_agree` — composition: equal scripts + component agreement ⇒ equal verdicts.
 -/
@@ -24,9 +24,10 @@ open P3R.VerifierScript
 def WFBatch (s : Shape) : Prop :=
   s.insts ≠ [] ∧ ∀ x ∈ s.insts, hasPre x = true → x.preNext = true
 
-/-- Shapes on which the uni circuit can be built and has the native transcript. -/
+/-- Shapes on which the uni circuit can be built (then it has the native transcript, with or
+without the hiding PCS, whether or not the AIR opens the next trace row). -/
 def WFUni (s : Shape) : Prop :=
-  s.zk = false ∧ (uniInst s).hasNext = true ∧ (hasPre (uniInst s) = true → (uniInst s).preNext = true)
+  hasPre (uniInst s) = true → (uniInst s).preNext = true
 
 /-! ### FRI part -/
 
@@ -68,12 +69,12 @@ theorem trace_mat_obs (s : Shape) (hz : s.zk = true) (r : Nat) (x : Inst) (i : N
     simp [observePoint, hz, observeMat, mergeMat, mergeOpening]
 
 theorem pre_mat_obs (s : Shape) (hz : s.zk = true) (r : Nat) (x : Inst) (i m : Nat) :
-    observeMat (mergeMat s.nrc r
+    observeMat (mergeMat 0 r
         { logSize := x.degreeBits,
           openings := ⟨Pt.zeta, preLocalNs i x⟩
             :: (if x.preNext then [⟨Pt.zetaNext i, preNextNs i x⟩] else []) } m)
-      = observePoint s (preLocalNs i x) r m 0
-        ++ (if x.preNext then observePoint s (preNextNs i x) r m 1 else []) := by
+      = observePoint { s with nrc := 0 } (preLocalNs i x) r m 0
+        ++ (if x.preNext then observePoint { s with nrc := 0 } (preNextNs i x) r m 1 else []) := by
   cases hx : x.preNext <;>
     simp [observePoint, hz, observeMat, mergeMat, mergeOpening]
 
@@ -86,7 +87,7 @@ theorem observe_opened_zk (s : Shape) (hz : s.zk = true) :
     simp only [hz, hp, hl, if_true, if_false, Bool.false_eq_true, List.append_nil, List.nil_append,
       List.singleton_append, List.cons_append, mergeRandom, List.zipIdx_cons, List.zipIdx_nil,
       List.map_cons, List.map_nil, observeRounds, List.flatMap_cons, List.flatMap_nil,
-      observeRound_merge_map, numberFrom_eq, Nat.zero_add, Nat.reduceAdd, zipIdx_zipIdx,
+      observeRound_merge_map, numberFrom_eq, Nat.zero_add, roundNrc, reduceCtorEq, Nat.reduceAdd, zipIdx_zipIdx,
       List.flatMap_map, trace_mat_obs s hz, pre_mat_obs s hz, observeMat_merge_one,
       observeMat_merge_two, observePoint, List.append_assoc] <;>
     simp [observePoint, hz, Function.comp_def]
@@ -134,26 +135,40 @@ theorem batch_scripts_equal_partial (s : Shape) (h : WFBatch s) :
 
 /-! ### uni: scripts equal -/
 
+/-- For one instance without lookups the batch rounds are the uni rounds. -/
+theorem uniAsBatch_rounds (s : Shape) : nativeBatchRounds (uniAsBatch s) = nativeUniRounds s := by
+  unfold nativeBatchRounds nativeUniRounds randRound traceRound quotRound preRound permRound
+  by_cases hpx : hasPre (uniInst s) = true
+  · simp [uniAsBatch, chunkList, hasPre, hasLookup, List.zipIdx_cons] at hpx ⊢
+    simp [hpx, traceLocalNs, traceNextNs, preLocalNs, preNextNs]
+  · simp [uniAsBatch, chunkList, hasPre, hasLookup, List.zipIdx_cons] at hpx ⊢
+    simp [hpx, traceLocalNs, traceNextNs, preLocalNs, preNextNs]
+
 theorem uni_scripts_equal_partial (s : Shape) (h : WFUni s) :
     circuitUni s = .ok (nativeUni s) := by
-  obtain ⟨hz, hn, hp⟩ := h
+  have hp := h
   have hv : circuitUniValidate s = .ok () := by
     unfold circuitUniValidate
     by_cases hpx : hasPre (uniInst s) = true
-    · simp [hn, hpx, hp hpx]
-    · simp [hn, hpx]
+    · simp [hpx, hp hpx]
+    · simp [hpx]
   have hr : circuitUniRounds s = nativeUniRounds s := by
     unfold circuitUniRounds nativeUniRounds
     by_cases hpx : hasPre (uniInst s) = true
-    · simp [hn, hpx, hp hpx]
-    · simp [hn, hpx]
-  have hobs : circuitUniObserveOpened s = observeRounds (nativeUniRounds s) := by
-    unfold circuitUniObserveOpened nativeUniRounds
-    by_cases hpx : hasPre (uniInst s) = true
-    · simp [hz, hn, hpx, hp hpx, observeRounds, observeRound, observeMat, List.flatMap_map, Function.comp_def]
-    · simp [hz, hn, hpx, observeRounds, observeRound, observeMat, List.flatMap_map, Function.comp_def]
+    · simp [hpx, hp hpx]
+    · simp [hpx]
+  have hobs : circuitUniObserveOpened s
+      = observeRounds (if s.zk then mergeRandom s.nrc (nativeUniRounds s) else nativeUniRounds s) := by
+    have hzk : (uniAsBatch s).zk = s.zk := rfl
+    have hnrc : (uniAsBatch s).nrc = s.nrc := rfl
+    unfold circuitUniObserveOpened
+    cases hz : s.zk with
+    | true =>
+      rw [observe_opened_zk (uniAsBatch s) (by rw [hzk, hz]), uniAsBatch_rounds, hnrc]; simp
+    | false =>
+      rw [observe_opened_nozk (uniAsBatch s) (by rw [hzk, hz]), uniAsBatch_rounds]; simp
   unfold circuitUni nativeUni
-  simp only [hv, hr, hobs, hz, fri_events_equal]
+  simp only [hv, hr, hobs, fri_events_equal]
   rfl
 
 /-! ### composition -/
@@ -239,7 +254,7 @@ theorem mem_merged (zk : Bool) (nrc : Nat) (rs : List Round) (r : Round) (hr : r
   | true =>
     obtain ⟨ri, hri⟩ := mem_zipIdx_of_mem hr
     simp only [if_true, mergeRandom, List.mem_flatMap, List.mem_map]
-    exact ⟨mergeRound nrc r ri, ⟨(r, ri), hri, rfl⟩, mem_mergeRound nrc ri r n h⟩
+    exact ⟨mergeRound (roundNrc nrc r) r ri, ⟨(r, ri), hri, rfl⟩, mem_mergeRound _ ri r n h⟩
 
 theorem pcs_names (rounds : List Round) (fri : List Name) :
     (Check.pcs rounds fri).names = rounds.flatMap roundNames ++ fri := by
